@@ -271,8 +271,8 @@ impl Prop for C13 {
             Tier::Tiny => 50,
         }
     }
-    fn required_probes(&self) -> Vec<&'static str> {
-        vec![
+    fn required_probes(&self) -> Vec<String> {
+        let v: Vec<&str> = vec![
             "failure_after_opc_same_message",
             "read_then_failure_same_message",
             "all_with_three_or_more_items",
@@ -285,7 +285,8 @@ impl Prop for C13 {
             "esr_bit_7",
             "next_on_empty_queue",
             "extended_text_item_read_back",
-        ]
+        ];
+        v.into_iter().map(String::from).collect()
     }
 
     fn gen(&self, seed: u64, run: u64, _tier: Tier) -> Trace {
